@@ -311,11 +311,34 @@ func stringLength1(context Context, args ...Result) (Result, error) {
 }
 
 func normalizeSpace0(context Context, args ...Result) (Result, error) {
-	return String(strings.TrimSpace(context.Result().String())), nil
+	return String(normalizeSpace(context.Result().String())), nil
 }
 
 func normalizeSpace1(context Context, args ...Result) (Result, error) {
-	return String(strings.TrimSpace(args[0].String())), nil
+	return String(normalizeSpace(args[0].String())), nil
+}
+
+func normalizeSpace(str string) string {
+	ret := strings.Builder{}
+	pendingSpace := false
+
+	for i := 0; i < len(str); i++ {
+		c := str[i]
+
+		if c == ' ' || c == '\t' || c == '\r' || c == '\n' {
+			pendingSpace = ret.Len() > 0
+			continue
+		}
+
+		if pendingSpace {
+			ret.WriteByte(' ')
+			pendingSpace = false
+		}
+
+		ret.WriteByte(c)
+	}
+
+	return ret.String()
 }
 
 func translate(context Context, args ...Result) (Result, error) {
